@@ -192,6 +192,10 @@ func decodeInline(d *xml.Decoder, direct, content *strings.Builder, spans *[]spa
 						}
 					}
 				}
+				// text:c comes from the file and sizes an allocation
+				if n > maxRepeatedSpaces {
+					n = maxRepeatedSpaces
+				}
 				content.WriteString(strings.Repeat(" ", n))
 				if err := d.Skip(); err != nil {
 					return err
@@ -354,3 +358,6 @@ type parsedElement struct {
 	Paragraph *parsedParagraph // Non-nil if Type == "paragraph"
 	Table     *ParsedTable     // Non-nil if Type == "table"
 }
+
+// maxRepeatedSpaces bounds the run of spaces a single <text:s text:c="N"/> expands to.
+const maxRepeatedSpaces = 4096
